@@ -9,6 +9,7 @@ pub mod c03;
 pub mod c04;
 pub mod c05;
 pub mod c06;
+pub mod c12;
 pub mod c17;
 pub mod c18;
 
@@ -29,6 +30,7 @@ pub fn info(prop: &str) -> Option<PropInfo> {
         "C04" => Some(c04::INFO),
         "C05" => Some(c05::INFO),
         "C06" => Some(c06::INFO),
+        "C12" => Some(c12::INFO),
         "C17" => Some(c17::INFO),
         "C18" => Some(c18::INFO),
         _ => None,
@@ -43,10 +45,11 @@ pub fn run(prop: &str, cfg: &RunCfg, direct: Option<&serde_json::Value>) -> Outc
         "C04" => c04::run(cfg, direct),
         "C05" => c05::run(cfg, direct),
         "C06" => c06::run(cfg, direct),
+        "C12" => c12::run(cfg, direct),
         "C17" => c17::run(cfg, direct),
         "C18" => c18::run(cfg, direct),
         _ => panic!("unknown property {prop}"),
     }
 }
 
-pub const ALL: &[&str] = &["C01", "C02", "C03", "C04", "C05", "C06", "C17", "C18"];
+pub const ALL: &[&str] = &["C01", "C02", "C03", "C04", "C05", "C06", "C12", "C17", "C18"];
